@@ -33,6 +33,8 @@ CHUNK = 4
 FAMS = ["axil2wb", "wb2axil", "axil_conv", "axil_sram", "axil2csr", "axil_remap", "chain", "axi2axil", "axi2wb", "axil2axi", "wb2axi", "ahb2wb"]
 
 
+SEEDED_SCALE = {"quick": 6, "thorough": 4}      # multiplies the run counts of the sampled families in plan()
+
 def plan(tier):
     n = 40 if tier == "quick" else 3000
     return [(f, n) for f in FAMS]
